@@ -17,11 +17,11 @@ type MixTx struct {
 
 // MixOpts sizes a mempool content.
 type MixOpts struct {
-	Height    uint64 // height of the block to be built (FSM height)
-	Sends     int    // valid sends to fresh addresses
-	Failing   int    // failing transactions of rotating kinds
-	Conflicts int    // pairs of conflicting sends (only one of each pair can succeed)
-	ValOps    bool   // include one validator operation (pause/unpause/edit-stake/stake/unstake) when possible
+	Height    uint64   // height of the block to be built (FSM height)
+	Sends     int      // valid sends to fresh addresses
+	Failing   int      // failing transactions of rotating kinds
+	Conflicts int      // pairs of conflicting sends (only one of each pair can succeed)
+	ValOps    bool     // include one validator operation (pause/unpause/edit-stake/stake/unstake) when possible
 	Replay    [][]byte // transactions already included in earlier blocks, resubmitted
 }
 
